@@ -66,7 +66,7 @@ manifest = {
         for pid in all_ids
         if pid not in present
     ],
-    "notes": "All checks are direct bounded-exhaustive exploration of the implementation (no sampling). VERIF_SEED only selects generic numeric values; exploration structure and verdict do not depend on it. Default worker count 8 (VERIF_JOBS overrides).",
+    "notes": "All checks are direct bounded-exhaustive exploration of the implementation (no sampling). VERIF_SEED only selects generic numeric values; exploration structure and verdict do not depend on it. Default worker count min(14, cores) (VERIF_JOBS overrides); every violation is re-confirmed twice in fresh processes before it is printed.",
 }
 (ROOT / "MANIFEST.json").write_text(json.dumps(manifest, indent=1))
 print("checks", len(checks), "not_applicable", len(manifest["not_applicable"]))
